@@ -369,6 +369,19 @@ def rule_r4(prog, res) -> None:
                             return l[0], e.right
                     if isinstance(e, ast.Call) and isinstance(e.func, ast.Name) and e.func.id in ("list", "tuple") and len(e.args) == 1:
                         return shape(e.args[0], depth + 1)
+                    if isinstance(e, ast.Call) and (dotted(e.func) or "").split(".")[-1] == "chain" and e.args and not e.keywords:
+                        # itertools.chain(a, b, …): the parts one after the other
+                        lead, tail = [], None
+                        for part in e.args:
+                            sh_ = shape(part, depth + 1)
+                            if tail is not None:
+                                return None  # something after a variable part
+                            if sh_ is None:
+                                tail = part
+                            else:
+                                lead += sh_[0]
+                                tail = sh_[1]
+                        return lead, tail
                     return None
 
                 sh = shape(J)
@@ -439,26 +452,51 @@ def rule_r4(prog, res) -> None:
             key_extra="format-literal-for-values",
         )
     # closed side: create_columns(closed) -> first character -> load_header
-    ifs = [x for x in walk_no_nested(cc.node) if isinstance(x, ast.If)]
-    dec = [x for x in walk_no_nested(lh.node) if isinstance(x, ast.IfExp)]
-    if len(ifs) != 1 or len(dec) != 1:
-        raise AnalysisError("C11.R4: closed-side header encoding not recognised")
+    # decided by folding writer and reader for both sides: the first character of the first column name that
+    # create_columns(…, closed) produces, handed to load_header as the first character read from the file
     closed_param = cc.param_names()[1]
     rt = {}
-    try:
-        for side in ("left", "right"):
-            arm = ifs[0].body if ceval(ifs[0].test, {closed_param: side}) else ifs[0].orelse
-            lst = next(s.value for s in arm if isinstance(s, ast.Assign) and isinstance(s.value, ast.List))
-            first = lst.elts[0].value[0]
-            texts = {unparse(x) for x in ast.walk(dec[0].test) if isinstance(x, ast.Subscript)}
-            env = {t: first for t in texts}
-            rt[side] = ceval(dec[0], env)
-    except (Unknown, StopIteration, AttributeError) as err:
-        raise AnalysisError(f"C11.R4: cannot evaluate the closed-side header round trip ({err})")
+    for side in ("left", "right"):
+        wp = [p for p in symx.explore(prog, cc, env={closed_param: side}, inline=symx.inline_private_helpers(prog)) if p.outcome == "return" and p.value is not None]
+        firsts = set()
+        for p in wp:
+            try:
+                cols = ceval(p.value, {cc.param_names()[0]: []})
+                firsts.add(str(cols[0])[0])
+            except Exception as err:  # noqa: BLE001
+                raise AnalysisError(f"C11.R4: cannot evaluate the closed-side header round trip (create_columns: {err})") from None
+        if len(firsts) != 1:
+            raise AnalysisError("C11.R4: closed-side header encoding not recognised")
+        first = firsts.pop()
+
+        def oracle(t, first=first):
+            # a comparison of the first character of the first header column with a literal
+            if isinstance(t, ast.Compare) and len(t.ops) == 1 and isinstance(t.ops[0], (ast.Eq, ast.NotEq)):
+                sides = [t.left, t.comparators[0]]
+                lit = [x for x in sides if isinstance(x, ast.Constant) and isinstance(x.value, str)]
+                oth = [x for x in sides if x not in lit]
+                if len(lit) == 1 and len(oth) == 1 and isinstance(oth[0], ast.Subscript) and symx.mentions(oth[0], lambda y: isinstance(y, ast.Call) and isinstance(y.func, ast.Attribute) and y.func.attr in ("readline", "readlines", "read")):
+                    eq = lit[0].value == first
+                    return eq if isinstance(t.ops[0], ast.Eq) else not eq
+            if isinstance(t, ast.Call) and isinstance(t.func, ast.Attribute) and t.func.attr == "startswith" and t.args and isinstance(t.args[0], ast.Constant) and symx.mentions(t.func.value, lambda y: isinstance(y, ast.Call) and isinstance(y.func, ast.Attribute) and y.func.attr in ("readline", "readlines", "read")):
+                return first.startswith(t.args[0].value)
+            return None
+
+        rp = [p for p in symx.explore(prog, lh, oracle=oracle, inline=symx.inline_private_helpers(prog)) if p.outcome == "return" and p.value is not None]
+        decoded = set()
+        for p in rp:
+            v = p.value
+            cand = [x for x in (v.elts if isinstance(v, ast.Tuple) else [v]) if isinstance(x, ast.Constant) and x.value in ("left", "right")]
+            cand += [x for x in (v.elts if isinstance(v, ast.Tuple) else [v]) if isinstance(x, ast.Attribute) and (dotted(x) or "").startswith("Closed.")]
+            for x in cand:
+                decoded.add(x.value if isinstance(x, ast.Constant) else x.attr)
+        if len(decoded) != 1:
+            raise AnalysisError(f"C11.R4: cannot evaluate the closed-side header round trip (load_header decodes {sorted(decoded)} for '{first}')")
+        rt[side] = decoded.pop()
     if rt == {"left": "left", "right": "right"}:
         res.ok("C11.R4", res.site(lh, "closed side"), "header bracket written for closed=left/right is decoded to the same side")
     else:
-        res.violation("C11.R4", lh, dec[0], f"closed side does not survive the file header: left->{rt['left']}, right->{rt['right']}", key_extra="header-closed-roundtrip")
+        res.violation("C11.R4", lh, lh.node, f"closed side does not survive the file header: left->{rt['left']}, right->{rt['right']}", key_extra="header-closed-roundtrip")
     # writer passes str(binning.closed); reader builds Binning(edges, closed=closed)
     ff = prog.func("CorrData.from_files")
     res.touch(ff)
